@@ -181,7 +181,7 @@ def scope(rc):
         rc.fail(b, qs[0], "BP.map_query must decode the calibrated JOINT marginal over exactly the requested variables given the evidence", construct="BP scope")
     # default: all variables
     tb = norm(b.node, 100000)
-    okd = "if not variables" in tb and "variables = list(self.model.nodes())" in tb
+    okd = "if not variables" in tb and ("variables = list(self.model.nodes())" in tb or bool(tm.find_all(b.node, "variables = [_v for _v in self.model.nodes() if _v not in evidence]")))
     rc.ob(f"BP.map_query default variables = all nodes: {okd}")
     if not okd:
         rc.fail(b, b.node, "without `variables` the MAP must be over all variables of the model", construct="BP default variables")
@@ -192,6 +192,14 @@ def scope(rc):
     if dv and reb and dv[0].lineno > min(reb):
         rc.fail(b, dv[0], "the default variable list must be taken before the engine is re-bound to an augmented/pruned model (else auxiliary '__X' nodes are returned)", construct="BP default order")
     fv = repo.func(EI, "VariableElimination._variable_elimination")
+    # the all-variables branch (`if not variables`) must condition on the evidence as well
+    for br in [n for n in walk_no_nested(fv.node) if isinstance(n, ast.If) and tm.is_(n.test, "not variables") is not None]:
+        uses_ev = any(isinstance(x, ast.Name) and x.id == "evidence" and isinstance(x.ctx, ast.Load) for st_ in br.body for x in ast.walk(st_)) or \
+            any(isinstance(x, ast.Name) and x.id == "working_factors" for st_ in br.body for x in ast.walk(st_))
+        rc.ob(f"_variable_elimination without variables: the evidence is applied to the factors: {uses_ev}")
+        if not uses_ev:
+            rc.fail(fv, br, "without `variables` the joint is built from the model's factors without reducing them to the evidence: map_query(evidence=e) / max_marginal(evidence=e) "
+                    "ignore e, and the returned assignment can contradict it", construct="all-variables branch ignores evidence")
     tv = norm(fv.node, 100000)
     if "if not variables" not in tv or "factor_product(*" not in tv:
         rc.fail(fv, fv.node, "without variables the joint over all variables is the product of all factors", construct="VE all variables")
@@ -264,6 +272,8 @@ def defuse(rc):
     _sh.defuse_rule(rc, _sh.anchor_files("C03"))
 
 MUTANTS = [
+    dict(kind="break", name="all-variables-branch-ignores-evidence", file=EI, expect="C03.scope",
+         old="            # The evidence applies here as well: reduce every factor to it.\n            if evidence:\n", new="            # The evidence applies here as well: reduce every factor to it.\n            if False:\n"),
     dict(kind="break", name="predict-distinct-rows-on-neighbours-only", file="pgmpy/models/BayesianNetwork.py", expect="C03.scope",
          old="            data_unique = data.drop_duplicates()\n            pred_values = []\n\n            # Send state_names dict", new="            data_unique = data.drop_duplicates(subset=[c for c in data.columns if c in set(self.get_markov_blanket(list(missing_variables)[0]))] or None)\n            pred_values = []\n\n            # Send state_names dict"),
     dict(kind="break", name="predict-per-variable-map", file="pgmpy/models/BayesianNetwork.py", expect="C03.scope",
